@@ -2,6 +2,7 @@ import Driver.Sinks
 import Driver.PQ
 import Driver.Sched
 import Driver.SeqLock
+import Driver.Task
 /-!
 `nexo_driver <engine>` — folds the executable Lean model of an engine over request lines read from
 stdin and prints one response line per request.  A line starting with `case` resets the state.
@@ -24,5 +25,6 @@ def main (args : List String) : IO UInt32 := do
   | ["sinks"] => loop stdin stdout Driver.Sinks.step Driver.Sinks.St.none; return 0
   | ["sched"] => loop stdin stdout Driver.Sched.step ({ d := {} } : Driver.Sched.Ctx); return 0
   | ["synccell"] => loop stdin stdout Driver.SeqLock.step ({} : Driver.SeqLock.DSt); return 0
+  | ["task"] => loop stdin stdout Driver.Task.step ({} : Driver.Task.DSt); return 0
   | ["pq"] => loop stdin stdout Driver.PQ.step Driver.PQ.St.none; return 0
   | _ => IO.eprintln "usage: nexo_driver <engine>"; return 2
